@@ -41,6 +41,8 @@ Module Prod.
   (* the application's Close(): AsyncClose; drain successes in a goroutine; for range p.errors; return *)
   Inductive apc := ApIdle | ApDrain (n : nat) | ApRet (n : nat) | ApReturned.
 
+  (* primitive projections: reduction of [field (setter s ...)] stays cheap on this wide record *)
+  Local Set Primitive Projections.
   Record st := {
     inflight : nat;                       (* p.inFlight *)
     sp : spc;
@@ -59,6 +61,7 @@ Module Prod.
     ap : apc;
     budget : nat; fuel : nat;
     panic : bool }.
+  Local Unset Primitive Projections.
 
   Definition init (c : cfg) : st :=
     {| inflight := 0; sp := SIdle; in_closed := false; ret_closed := false; err_closed := false; succ_closed := false;
